@@ -1,8 +1,8 @@
 (* C16 — statements only. Each theorem is closed by [exact] of a lemma proved in Proofs.v / Conc.v
    and followed by Print Assumptions. *)
 From GVL Require Import NList.
-From GV_ring Require Import Model Proofs ConcModel ConcProofs SkelCheck.
-From GVG Require Import Skel.
+From GV_ring Require Import Model Proofs ConcModel ConcProofs SkelCheck Bridge.
+From GVG Require Import Skel Kern.
 From Coq Require Import Permutation.
 Open Scope N_scope.
 
@@ -131,3 +131,28 @@ Example C16_example :
   rrun r [OPush 5; OPush 6; OPush 7; OPull; OPush 8; OPull; OPull; OPull] =
   [RPushed true; RPushed true; RPushed false; RGot 5; RPushed true; RGot 6; RGot 8; RWouldBlock].
 Proof. eexists. split; reflexivity. Qed.
+
+(* BRIDGE (tools/go2coq): the integer kernels of ringbuffer.go TRANSLATED from the Go source on this run are the
+   formulas of the model: New refuses exactly the sizes for which (size & (size-1)) != 0 (Model.rnew / pow2_ok);
+   whenever the model's Push / Pull succeeds the new write / read index is the Go expression (index + 1) % size
+   evaluated on the old one (the other index and the size are untouched); on a ring of size 0 that expression is a
+   division by zero and the model's step is the panic outcome.  The uint64 ranges are hypotheses (the model's
+   indices are unbounded N). *)
+Theorem C16_ring_kernels_are_the_code :
+  (forall size, u64 size -> (rnew size = None <-> k_ring_new_reject (Z.of_N size) = true)) /\
+  (forall r x r', u64 (rsize r) -> rw r + 1 < 18446744073709551616 -> rpush r x = PushOk r' ->
+     k_ring_push_next (Z.of_N (rw r)) (Z.of_N (rsize r)) = Some (Z.of_N (rw r')) /\ rr r' = rr r /\ rsize r' = rsize r) /\
+  (forall r x r', u64 (rsize r) -> rr r + 1 < 18446744073709551616 -> rpull r = PullGot x r' ->
+     k_ring_pull_next (Z.of_N (rr r)) (Z.of_N (rsize r)) = Some (Z.of_N (rr r')) /\ rw r' = rw r /\ rsize r' = rsize r) /\
+  (forall r (x : item), rsize r = 0 ->
+     (forall r', rpush r x <> PushOk r') /\ (forall y r', rpull r <> PullGot y r') /\
+     k_ring_push_next (Z.of_N (rw r)) (Z.of_N (rsize r)) = None /\ k_ring_pull_next (Z.of_N (rr r)) (Z.of_N (rsize r)) = None).
+Proof. exact ring_kernels_are_the_code. Qed.
+Print Assumptions C16_ring_kernels_are_the_code.
+
+(* the translated kernels compute: 8 and 0 are accepted, 6 and 2^64-2 are refused; index 7 of 8 wraps to 0 *)
+Example C16_example_kernels :
+  k_ring_new_reject 8 = false /\ k_ring_new_reject 0 = false /\ k_ring_new_reject 6 = true /\
+  k_ring_new_reject 18446744073709551614 = true /\ k_ring_new_reject 9223372036854775808 = false /\
+  k_ring_push_next 7 8 = Some 0%Z /\ k_ring_pull_next 3 8 = Some 4%Z /\ k_ring_push_next 0 0 = None.
+Proof. vm_compute. repeat split. Qed.
